@@ -51,6 +51,8 @@ def _checks_for(rng, s):
     if not all(c in "ACGT" for c in s):
         return rng.choice([(None, "none"), ("ACG", "arbitrary")])
     x = rng.random()
+    if x < 0.03:
+        return "", "empty-string"          # a check was supplied, and no check has length 0: it cannot match
     if x < 0.45:
         return None, "none"
     n = rng.choice([1, 2, 3, 5, 8, 8, 33, 40])
@@ -213,7 +215,7 @@ def check_decode(ctx, case, acc_obj=None):
     acgt = all(c in "ACGT" for c in s)
     check_ok = True
     if check is not None:
-        check_ok = acgt and check == oracles.vt(s, len(check))
+        check_ok = acgt and len(check) >= 1 and check == oracles.vt(s, len(check))
     if fast:
         if 3 in set(G.out_degrees(acc).tolist()):
             return
@@ -272,7 +274,7 @@ def floors(agg, tier):
         if c.get(mode + "|accepted", 0) < 200:
             out.append("%s accepted walks %d < 200" % (mode, c.get(mode + "|accepted", 0)))
     for name, need in (("edit sequences (same accessor object overwritten in place)", 100), ("check passed as numpy.str_", 500),
-                       ("string|long walk", 20), ("string|foreign-tail", 1000)):
+                       ("string|long walk", 20), ("string|foreign-tail", 1000), ("check|empty-string", 500), ("accessor layout|i16", 300)):
         if c.get(name, 0) < need:
             out.append("%s observed %d < %d" % (name, c.get(name, 0), need))
     if not any(k.startswith("probe-hits:decode:raise") for k in agg["monitors"]):
